@@ -68,6 +68,8 @@ def gen_knobs(rng):
     "mid2": rng.choice([0.0, 0.3, 0.6]),
     # probability that a roll-up row is sent without a PAC after the carriage return
     "nopac": rng.choice([0.0, 0.3, 0.6]),
+    # probability of a tab offset between two pieces of text of a row
+    "tomid": rng.choice([0.0, 0.2, 0.5]),
     "chan": {"double": rng.random() < 0.7, "null": rng.choice([0.0, 0.0, 0.1, 0.3]), "ch2": rng.choice([0.0, 0.0, 0.1, 0.3]),
              "parity_off": rng.choice([0.0, 0.0, 0.5, 1.0]), "line_len": rng.choice([6, 12, 20, 40, 1000]), "split": rng.choice([0.0, 0.0, 0.5, 1.0])},
     "chan2": {"double": rng.random() < 0.5, "null": rng.choice([0.0, 0.2]), "ch2": rng.choice([0.0, 0.2]), "parity_off": rng.choice([0.0, 1.0]),
